@@ -120,6 +120,7 @@ package filters
 // ---- array filters (C15, C03) -----------------------------------------------------
 
 //@ func filter "first"
+//@ overflow
 //@ props C15 C03 C01
 //@ panics nothing
 //@ assigns nothing
@@ -127,6 +128,7 @@ package filters
 //@ ensures first: len(a) > 0 ==> result == a[0]
 
 //@ func filter "last"
+//@ overflow
 //@ props C15 C03 C01
 //@ panics nothing
 //@ assigns nothing
@@ -134,6 +136,7 @@ package filters
 //@ ensures last: len(a) > 0 ==> result == a[len(a)-1]
 
 //@ func filters.reverseFilter
+//@ overflow
 //@ props C15 C03 C01
 //@ panics nothing
 //@ assigns alloc S$Val
@@ -223,6 +226,7 @@ package filters
 //@ panics nothing
 
 //@ func filters.firstWords
+//@ overflow
 //@ props C01 C16
 //@ panics nothing
 //@ assigns nothing
@@ -243,12 +247,14 @@ package filters
 
 // truncate / truncatewords (C01, C16): no count or ellipsis makes them panic
 //@ func filter "truncate"
+//@ overflow
 //@ props C01 C16
 //@ panics values.TypeError
 //@ requires args: length != nil && ellipsis != nil
 //@ assigns alloc S$Int, alloc S$Val
 
 //@ func filter "truncatewords"
+//@ overflow
 //@ props C01 C16
 //@ panics values.TypeError
 //@ requires args: length != nil && ellipsis != nil
